@@ -55,7 +55,7 @@
 #include "varintTagged.h"
 
 const char *vf_prop_id = "C15";
-const size_t vf_case_maxlen = 160;
+const size_t vf_case_maxlen = 320;
 
 /* ------------------------------------------------------------ stack paint */
 #define PAINT_WORDS 8192 /* 64 KiB below the caller's frame */
@@ -1350,6 +1350,15 @@ void vf_run(vf_rd *r, vf_report *rep) {
     uint8_t hb = vf_u8(r);
     unsigned nh = hb % (MAXHIST + 1);
     unsigned variant = (hb / (MAXHIST + 1)) % 3;
+    {
+        /* the target's own arguments come last in the case: a short case
+         * keeps enough bytes for them by running a shorter history */
+        size_t left = vf_left(r);
+        unsigned cap = left > 12 ? (unsigned)((left - 12) / 8) : 0;
+        if (nh > cap) {
+            nh = cap;
+        }
+    }
 
     hstep hs[MAXHIST];
     for (unsigned i = 0; i < nh; i++) {
